@@ -237,8 +237,10 @@ def lfixedFreeBlock (s : State) (k : Nat) (b : FBlk) : State × List Nat :=
   let h := fxHead s.cfg k
   let (s1, w) :=
     if (getFx s k).length = s.cfg.cap then
-      let (s', w') := flushList s (getFx s k)
-      (setFx s' k [], w' ++ [h, h + 4])
+      -- the loop hands every node to `$wa_l128_free`; the head is reset after the loop (the abstract
+      -- lists are independent, so the model may empty the list first)
+      let (s', w') := flushList (setFx s k []) (getFx s k)
+      (s', w' ++ [h, h + 4])
     else (s, [])
   (setFx s1 k (b :: getFx s1 k), w ++ [b.1 + 4, h + 4, h])
 
